@@ -454,6 +454,50 @@ def State.copy (s : State) : Handle :=
   { snap := s.db, rver := maxVer, pfx := lssPrefix,
     layers := [{ ov := (s.main.getLast?.map (·.ov)).getD [], seek := false }] }
 
+/-- the state-changing operations of the store API (reads are `Handle.get` / `Handle.iter` on
+`State.handle`, `State.readOnly v`, a copy or a held read-only view) -/
+inductive Op
+  | set (k v : Bytes)
+  | del (k : Bytes)
+  | nest
+  | flush
+  | discard
+  | pop
+  | commit
+  | rollback (t : Nat)
+  | copy
+  | cset (i : Nat) (k v : Bytes)
+  | cdel (i : Nat) (k : Bytes)
+  | hold (v : Nat)
+
+/-- one operation; an operation that does not apply (flush without a nested txn, commit or rollback
+under a nested txn, rollback to an invalid height, unknown copy) leaves the state unchanged -/
+def State.apply (s : State) : Op → State
+  | .set k v => { s with main := (s.handle.write k (.set v)).layers }
+  | .del k => { s with main := (s.handle.write k .del).layers }
+  | .nest => { s with main := {} :: s.main }
+  | .flush => match flushLayers s.main with
+    | some m => { s with main := m }
+    | none => s
+  | .discard => match s.main with
+    | top :: below :: rest => { s with main := { top with ov := [] } :: below :: rest }
+    | _ => s
+  | .pop => match s.main with
+    | _ :: below :: rest => { s with main := below :: rest }
+    | _ => s
+  | .commit => s.commit
+  | .rollback t => match s.main with
+    | [_] => (s.rollback t).getD s
+    | _ => s
+  | .copy => { s with copies := s.copies ++ [s.copy] }
+  | .cset i k v => match s.copies[i]? with
+    | some h => { s with copies := s.copies.set i (h.write k (.set v)) }
+    | none => s
+  | .cdel i k => match s.copies[i]? with
+    | some h => { s with copies := s.copies.set i (h.write k .del) }
+    | none => s
+  | .hold v => { s with held := s.held ++ [s.readOnly v] }
+
 /-! ## Spec: a simple versioned map -/
 
 /-- the committed writes: `(key, version, value)`, `none` = deletion. For a key `k` the property's
